@@ -206,7 +206,13 @@ def run_index(ctx: core.Ctx, prop: str, p_malformed: float, only: list | None = 
             for item in (lean.split(';') if lean else []):
                 k, v = item.split(':')
                 W[tuple(int(t) for t in k.split(','))] = int(v)
-            exp = combo(W)
+            try:
+                exp = combo(W)
+            except Exception as e:  # noqa: BLE001  (the model names an index the component has no interpolant for: the two have
+                #                                      diverged, e.g. because a generated fragment failed closed — a disagreement)
+                res.disagreements.append({'name': 'Amisc.lookahead names indices the component does not hold',
+                                          'input': {'box': meta, 'requests': h, 'candidate': list(c)}, 'model': lean, 'impl': repr(e)[:200]})
+                continue
             if not np.allclose(got, exp, rtol=1e-9, atol=1e-12):
                 # is the model's look-ahead weight the IE value? (theorem) -> the implementation's incremental
                 # prediction differs from the prediction of the explicitly activated set
